@@ -230,7 +230,7 @@ def test_float_repr(count):
              "123.456e2", "123.456e-2", "9e15", "1e16", "00.10e01", "7e-0", "1.e+15", "0.0e5",
              "0.00001", "0.0000123", "-0.000099", "1e-7", "12e-9", "1.5e-15", "1e16", "1e17", "12e16", "-1.25e15", "1.25e18",
              "100000000000000000.0", "120000000000000000000", "0.00001000", "1000000000000000.0", "1200000000000000.0",
-             "5e15", "9000000000000000", "1.5e-15", "-2.5e-19", "0.0000000000000015", "0.00000000000000012345", "9.9e-11", "1234567890123456.0", "123456789012345600.0",
+             "5e15", "9000000000000000", "1.5e400", "-2e-400", "1e310", "9.99E+999", "-7.25e-345", "1.50E+400", "3e-999", "1.5e-15", "-2.5e-19", "0.0000000000000015", "0.00000000000000012345", "9.9e-11", "1234567890123456.0", "123456789012345600.0",
              "inf", "-inf", "+INF", "Infinity", "-iNfInItY", "nan", "NaN", "-nan", "+nan"]
     pool += ["".join(rnd.choice("0123456789") for _ in range(rnd.randint(1, 3))) + rnd.choice(["", ".", ".5", ".25", ".0"]) +
              rnd.choice("eE") + rnd.choice(["", "+", "-"]) + str(rnd.randint(0, 16)) for _ in range(300)]
